@@ -2,7 +2,7 @@
 From Coq Require Import Extraction ExtrOcamlBasic.
 From Coq Require Import List NArith ZArith.
 From Coq.Strings Require Import Byte.
-From LC Require Import Bytes Consts Conv Flex LexAct LexRules Lexer Files Store Parser Api Print Grammar.
+From LC Require Import Bytes Consts Conv Flex LexAct LexRules Lexer Files Store Parser Api Getters Print Grammar.
 Extraction Language OCaml.
 Set Extraction AccessOpaque.
 Extraction "model.ml"
@@ -15,6 +15,6 @@ Extraction "model.ml"
   Parser.cfg_init Parser.parse_buf Parser.parse_file Parser.parse_fp Parser.parse_fp_unreadable Parser.parse_fp_partial Parser.cfg_free Parser.set_path
   Api.cfg_setnint Api.cfg_setnfloat Api.cfg_setnbool Api.cfg_setnstr Api.cfg_setlist Api.cfg_addlist
   Api.cfg_setmulti Api.cfg_setopt_cmd Api.cfg_setcomment Api.cfg_addtsec Api.cfg_rmnsec Api.cfg_rmsec Api.cfg_rmtsec
-  Api.cfg_set_validate_func Api.cfg_set_validate_func2 Api.cfg_set_print_func Api.cfg_getsec
+  Api.cfg_set_validate_func Api.cfg_set_validate_func2 Api.cfg_set_print_func Api.cfg_getsec Getters.cfg_getn Getters.cfg_gettsec
   Print.cfg_print_indent Print.cfg_opt_print
   Grammar.text_meaning.
